@@ -44,11 +44,16 @@ def transition_check(sc, tier, seed, prop, models, quick_n, rule, thorough_n=Non
 
 
 def c03(sc, tier, seed):
-    return transition_check(sc, tier, seed, 'C03', ['MC_lists'], 6000,
+    return transition_check(sc, tier, seed, 'C03', ['MC_lists'], 15000,
                             'TLC enumerates every state of MC_lists (2 keys; lists up to 3 over 2 elements, a string, a set) x every list command instance (indexes -5..5 and 32/64-bit extremes, counts, ranks, option orders, keyword case, bad arity); each transition is one case: load pre-state, send command, compare reply and full projected state. Non-trivial = the command changed the state or failed; distinct = distinct (pre-state, command).')
 
 
-CHECKS = {'C03': c03}
+def c05(sc, tier, seed):
+    return transition_check(sc, tier, seed, 'C05', ['MC_sets'], 15000,
+                            'TLC enumerates every state of MC_sets (3 keys; each missing, one of the 3 non-empty sets over {x,y}, a string or a list) x every set command instance (all operand tuples up to length 3 incl. repeated/missing/wrong-typed operands and destination among the operands, SRANDMEMBER counts -3..3, SINTERCARD numkeys/LIMIT variants, bad arity); one replay case per transition with full-state comparison. Non-trivial = state changed or command failed; distinct = distinct (pre-state, command).')
+
+
+CHECKS = {'C03': c03, 'C05': c05}
 
 
 def replay_path(path):
